@@ -119,6 +119,61 @@ func (r *Rand) Fill(b []byte) {
 	}
 }
 
+// shapes are byte sequences that mean something to one of the formats the library speaks.  A payload is opaque to
+// every carrier (RTMP message, FLV tag, NAL unit, WebSocket message): code that "recognizes" content in it is wrong.
+var shapes = [][]byte{
+	{0, 0, 0, 1}, {0, 0, 1}, {0, 0, 3}, {0, 0, 0, 0}, {0xff, 0xff, 0xff, 0xff}, // Annex-B, emulation prevention, extremes
+	{0xff, 0xf1}, {0xff, 0xf9}, {0xff, 0xf0}, // ADTS sync
+	[]byte("FLV\x01\x05\x00\x00\x00\x09"), {0x17, 0, 0, 0, 0}, {0xaf, 0}, {0xaf, 1}, {0x09, 0, 0, 0x10}, // FLV
+	{0x03}, {0xc3}, {0x43}, {0x83}, {0x02, 0, 0, 0, 0, 0, 4, 1, 0, 0, 0, 0}, {0xff, 0xff, 0xff}, // RTMP chunk headers
+	{0, 0, 9}, {2, 0, 7, 'c', 'o', 'n', 'n', 'e', 'c', 't'}, {2, 0, 7, '_', 'r', 'e', 's', 'u', 'l', 't'}, {8, 0, 0, 0, 0}, // AMF0
+	{1, 0x64, 0, 0x1f, 0xff, 0xe1}, {0x12, 0x10}, // avcC, ASC
+	{0x81, 0x00}, {0x88, 0x02, 0x03, 0xe8}, {0x89, 0x00}, {0, 0, 0xff, 0xff}, // WebSocket frames, deflate tail
+	[]byte("//"), []byte("/*"), []byte("*/"), []byte("\\\""), // JSON+ markers
+}
+
+// Shaped returns n bytes: half of the time PRNG bytes, otherwise bytes that look like protocol data — a constant fill,
+// a short repeated pattern, or PRNG bytes with shapes at the start, at the end and/or sprinkled inside.
+func (r *Rand) Shaped(n int) []byte {
+	b := make([]byte, n)
+	if n == 0 {
+		return b
+	}
+	switch r.Intn(8) {
+	case 0:
+		return b // zeros
+	case 1:
+		for i := range b {
+			b[i] = 0xff
+		}
+		return b
+	case 2:
+		pat := shapes[r.Intn(len(shapes))]
+		for i := range b {
+			b[i] = pat[i%len(pat)]
+		}
+		return b
+	case 3:
+		r.Fill(b)
+		copy(b, shapes[r.Intn(len(shapes))])
+		if r.Bool() {
+			sh := shapes[r.Intn(len(shapes))]
+			if len(sh) <= n {
+				copy(b[n-len(sh):], sh)
+			}
+		}
+		return b
+	case 4:
+		r.Fill(b)
+		for k := 1 + r.Intn(4); k > 0; k-- {
+			copy(b[r.Intn(n):], shapes[r.Intn(len(shapes))])
+		}
+		return b
+	}
+	r.Fill(b)
+	return b
+}
+
 // Pick returns one of the ints.
 func (r *Rand) Pick(vs ...int) int { return vs[r.Intn(len(vs))] }
 
